@@ -145,6 +145,24 @@ func accepts(t declType, v valKind) bool {
 	return false
 }
 
+// defaultOf is a constant expression of the declared type (never null) used as the default
+// value of the "-default" parameter forms.
+func (tf *TypeFixture) defaultOf(t declType) string {
+	for _, a := range t.atoms {
+		switch a {
+		case "int":
+			return "41"
+		case "string":
+			return "\"s0\""
+		case "array":
+			return "[9, 9, 9]"
+		case "C", "I":
+			return "new " + tf.K + "()"
+		}
+	}
+	return "41"
+}
+
 // initial valid value of a typed property (differs from every tested value)
 func (tf *TypeFixture) initOf(t declType) (setup, repr string) {
 	switch t.atoms[0] {
@@ -167,6 +185,8 @@ type boundary struct {
 var boundaries = []boundary{
 	{"prop-arrow", "prop"}, {"prop-this", "prop"}, {"prop-dyn", "prop"}, {"prop-static", "prop"}, {"prop-self", "prop"}, {"prop-promoted", "prop"},
 	{"func-param", "param"}, {"method-param", "param"}, {"static-param", "param"}, {"ctor-param", "param"}, {"closure-param", "param"}, {"dynmethod-param", "param"},
+	{"func-param-default", "param"}, {"func-param2-default", "param"}, {"method-param-default", "param"}, {"static-param-default", "param"},
+	{"ctor-param-default", "param"}, {"closure-param-default", "param"}, {"prop-promoted-default", "prop"},
 	{"func-return", "return"}, {"method-return", "return"}, {"static-return", "return"}, {"closure-return", "return"},
 }
 
@@ -252,7 +272,14 @@ func (tf *TypeFixture) buildTypeCase(bd boundary, t declType, v valKind) *Case {
 	initSetup, initRepr := tf.initOf(t)
 	T, fn := tf.T, tf.Fn
 	hasInit := false
-	switch bd.name {
+	// "-default" forms: the parameter also declares a (non-null) default value of its type;
+	// that does not make it nullable
+	base := strings.TrimSuffix(bd.name, "-default")
+	dx := ""
+	if base != bd.name {
+		dx = " = " + tf.defaultOf(t)
+	}
+	switch base {
 	case "prop-arrow", "prop-dyn", "prop-this":
 		hasInit = true
 		fmt.Fprintf(&b, "class %s { public %s $p; public function set($x) { $this->p = $x; } }\n", T, ty)
@@ -285,17 +312,21 @@ func (tf *TypeFixture) buildTypeCase(bd boundary, t declType, v valKind) *Case {
 		b.WriteString(tryHead + store("$val") + tryEnd + "echo \"R|\", $st, \"\\n\";\n")
 		fmt.Fprintf(&b, "echo \"G|\", repr(%s::$sp), \"\\n\";\n", T)
 	case "prop-promoted":
-		fmt.Fprintf(&b, "class %s { public function __construct(public %s $p) { echo \"IN|\", repr($p), \"\\n\"; } }\n", T, ty)
+		fmt.Fprintf(&b, "class %s { public function __construct(public %s $p%s) { echo \"IN|\", repr($p), \"\\n\"; } }\n", T, ty, dx)
 		b.WriteString(valSetup)
 		b.WriteString("$t = \"none\";\n")
 		b.WriteString(tryHead + "$t = new " + T + "($val);" + tryEnd + "echo \"R|\", $st, \"\\n\";\n")
 		b.WriteString("if (is_object($t)) { echo \"G|\", repr($t->p), \"\\n\"; } else { echo \"G|noobject\\n\"; }\n")
 	case "func-param":
-		fmt.Fprintf(&b, "function %s(%s $x) { echo \"IN|\", repr($x), \"\\n\"; return 1; }\n", fn, ty)
+		fmt.Fprintf(&b, "function %s(%s $x%s) { echo \"IN|\", repr($x), \"\\n\"; return 1; }\n", fn, ty, dx)
 		b.WriteString(valSetup)
 		b.WriteString(tryHead + fn + "($val);" + tryEnd + "echo \"R|\", $st, \"\\n\";\n")
+	case "func-param2":
+		fmt.Fprintf(&b, "function %s(int $a = 1, %s $x%s) { echo \"IN|\", repr($x), \"\\n\"; return 1; }\n", fn, ty, dx)
+		b.WriteString(valSetup)
+		b.WriteString(tryHead + fn + "(3, $val);" + tryEnd + "echo \"R|\", $st, \"\\n\";\n")
 	case "method-param", "dynmethod-param":
-		fmt.Fprintf(&b, "class %s { public function %s(%s $x) { echo \"IN|\", repr($x), \"\\n\"; return 1; } }\n", T, fn, ty)
+		fmt.Fprintf(&b, "class %s { public function %s(%s $x%s) { echo \"IN|\", repr($x), \"\\n\"; return 1; } }\n", T, fn, ty, dx)
 		b.WriteString(valSetup)
 		fmt.Fprintf(&b, "$t = new %s();\n", T)
 		call := "$t->" + fn + "($val);"
@@ -305,16 +336,16 @@ func (tf *TypeFixture) buildTypeCase(bd boundary, t declType, v valKind) *Case {
 		}
 		b.WriteString(tryHead + call + tryEnd + "echo \"R|\", $st, \"\\n\";\n")
 	case "static-param":
-		fmt.Fprintf(&b, "class %s { public static function %s(%s $x) { echo \"IN|\", repr($x), \"\\n\"; return 1; } }\n", T, fn, ty)
+		fmt.Fprintf(&b, "class %s { public static function %s(%s $x%s) { echo \"IN|\", repr($x), \"\\n\"; return 1; } }\n", T, fn, ty, dx)
 		b.WriteString(valSetup)
 		b.WriteString(tryHead + T + "::" + fn + "($val);" + tryEnd + "echo \"R|\", $st, \"\\n\";\n")
 	case "ctor-param":
-		fmt.Fprintf(&b, "class %s { public function __construct(%s $x) { echo \"IN|\", repr($x), \"\\n\"; } }\n", T, ty)
+		fmt.Fprintf(&b, "class %s { public function __construct(%s $x%s) { echo \"IN|\", repr($x), \"\\n\"; } }\n", T, ty, dx)
 		b.WriteString(valSetup)
 		b.WriteString(tryHead + "$t = new " + T + "($val);" + tryEnd + "echo \"R|\", $st, \"\\n\";\n")
 	case "closure-param":
 		b.WriteString(valSetup)
-		fmt.Fprintf(&b, "$f = function(%s $x) { echo \"IN|\", repr($x), \"\\n\"; return 1; };\n", ty)
+		fmt.Fprintf(&b, "$f = function(%s $x%s) { echo \"IN|\", repr($x), \"\\n\"; return 1; };\n", ty, dx)
 		b.WriteString(tryHead + "$f($val);" + tryEnd + "echo \"R|\", $st, \"\\n\";\n")
 	case "func-return":
 		fmt.Fprintf(&b, "function %s($x): %s { return $x; }\n", fn, ty)
@@ -364,7 +395,7 @@ func (tf *TypeFixture) buildTypeCase(bd boundary, t declType, v valKind) *Case {
 					return "mangled", fmt.Sprintf("accepted value arrived as %q, want %q", in, vrepr)
 				}
 			case "prop", "return":
-				if bd.name == "prop-promoted" && in != vrepr {
+				if base == "prop-promoted" && in != vrepr {
 					return "mangled", fmt.Sprintf("accepted value arrived as %q, want %q", in, vrepr)
 				}
 				if !hasG || g != vrepr {
@@ -383,7 +414,7 @@ func (tf *TypeFixture) buildTypeCase(bd boundary, t declType, v valKind) *Case {
 				return "effect", "the call was rejected but the body ran: " + in
 			}
 		case "prop":
-			if bd.name == "prop-promoted" {
+			if base == "prop-promoted" {
 				if in != "" || g != "noobject" {
 					return "effect", fmt.Sprintf("the construction was rejected but had effects: IN=%q G=%q", in, g)
 				}
